@@ -1,8 +1,154 @@
-import DarkluaModel.Util.Sexp
-/-! Line-protocol handlers for property C06 (stub: nothing modelled yet). -/
-namespace DarkluaModel.C06
+import DarkluaModel.Shared.AstSexp
+import DarkluaModel.C07.Model
+import DarkluaModel.C07.Cover
+/-!
+Line-protocol handlers for properties C06 and C07 (the Luau-lowering rules).
 
-def handle (op : String) (_args : List String) : String :=
-  "unknown-op " ++ op
+* `c06.rules` → the modelled rule names
+* `c06.rule <rule-name x-hex> <block> [(<expr>*)]` → the transformed block. The optional third
+  argument lists the expressions `e` for which the REAL `Evaluator::evaluate(e).is_truthy()` is
+  `Some(true)` (only `remove_if_expression` looks at it; see `Rules/RemoveIfExpression.lean`).
+* `c06.all <block> [(<expr>*)]` → all nine rules in the order of `C07.lowerAll`
+* `c06.census <name> <block>` → the feature census (`<name>` = a rule name, or `luau` for all)
+* `c06.wf <block>` → `true`/`false`: the tree is one darklua's AST can express
+* `c06.fuelok <block>` → `true`/`false`: the fuel hypothesis `ifFuelOk` of `census_zero_remove_if_expression`
+* `c06.hyp <rule-name x-hex> <block>` → `true`/`false`: the hypothesis of that rule's partial theorems
+-/
+namespace DarkluaModel.C06
+open DarkluaModel.Rules
+
+def ruleNames : List String :=
+  ["remove_compound_assignment", "remove_continue", "remove_if_expression", "remove_interpolated_string",
+   "remove_floor_division", "convert_luau_number", "make_assignment_local", "remove_types", "remove_attribute"]
+
+/-- membership in the list of truthy expressions, by printed form -/
+def truthyOf (table : List String) (e : Expr) : Bool := table.contains e.toSexp.toString
+
+def applyRule (name : String) (truthy : Expr → Bool) (b : Block) : Option Block :=
+  match name with
+  | "remove_compound_assignment" => some (RemoveCompoundAssign.apply b)
+  | "remove_continue" => some (RemoveContinue.apply b)
+  | "remove_if_expression" => some (RemoveIfExpression.apply truthy b)
+  | "remove_interpolated_string" => some (RemoveInterpolatedString.apply b)
+  | "remove_interpolated_string:tostring" => some (RemoveInterpolatedString.applyWith .tostring b)
+  | "remove_floor_division" => some (RemoveFloorDivision.apply b)
+  | "convert_luau_number" => some (ConvertLuauNumber.apply b)
+  | "make_assignment_local" => some (MakeAssignmentLocal.apply b)
+  | "remove_types" => some (RemoveTypes.apply b)
+  | "remove_attribute" => some (RemoveAttribute.apply b)
+  | _ => none
+
+def census (name : String) (b : Block) : Option Nat :=
+  match name with
+  | "remove_compound_assignment" => some (C07.census_compound_assignment b)
+  | "remove_continue" => some (C07.census_continue b)
+  | "remove_if_expression" => some (C07.census_if_expression b)
+  | "remove_interpolated_string" => some (C07.census_interpolated_string b)
+  | "remove_floor_division" => some (C07.census_floor_division b)
+  | "convert_luau_number" => some (C07.census_luau_number b)
+  | "make_assignment_local" => some (C07.census_const b)
+  | "remove_types" => some (C07.census_types b)
+  | "remove_attribute" => some (C07.census_attribute b)
+  | "luau" => some (C07.census_luau b)
+  | _ => none
+
+mutual
+  /-- some if-expression has two or more `elseif` branches (finding F25: tested in reverse order) -/
+  partial def manyElifsE : Expr → Bool
+    | .paren e | .un _ e | .field e _ => manyElifsE e
+    | .cast e t => manyElifsE e || manyElifsTy t
+    | .inst e ts => manyElifsE e || ts.any manyElifsTy
+    | .bin _ l r | .index l r => manyElifsE l || manyElifsE r
+    | .call f _ _ args => manyElifsE f || args.any manyElifsE
+    | .fn body => manyElifsF body
+    | .table es => es.any fun
+      | .pos v | .named _ v => manyElifsE v
+      | .keyed k v => manyElifsE k || manyElifsE v
+    | .ifx c t elifs e =>
+      elifs.length ≥ 2 || manyElifsE c || manyElifsE t || manyElifsE e ||
+        elifs.any fun (a, b) => manyElifsE a || manyElifsE b
+    | .interp segs => segs.any fun | .s _ => false | .v e => manyElifsE e
+    | _ => false
+  partial def manyElifsTy : Ty → Bool
+    | .mk _ kids => kids.any manyElifsTy
+    | .typeof e => manyElifsE e
+  partial def manyElifsTN : TName → Bool
+    | .mk _ none => false
+    | .mk _ (some t) => manyElifsTy t
+  partial def manyElifsF : FnBody → Bool
+    | .mk ps _ vt rt _ _ body =>
+      ps.any manyElifsTN || (vt.map manyElifsTy).getD false || (rt.map manyElifsTy).getD false || manyElifsB body
+  partial def manyElifsS : Stmt → Bool
+    | .assign ts vs => ts.any manyElifsE || vs.any manyElifsE
+    | .cassign _ t v => manyElifsE t || manyElifsE v
+    | .callStmt c => manyElifsE c
+    | .doBlock b => manyElifsB b
+    | .function _ _ body | .localFn _ _ body | .typeFn _ _ body => manyElifsF body
+    | .gfor ns vs body => ns.any manyElifsTN || vs.any manyElifsE || manyElifsB body
+    | .nfor n a b step body =>
+      manyElifsTN n || manyElifsE a || manyElifsE b || (step.map manyElifsE).getD false || manyElifsB body
+    | .ifs branches els =>
+      (branches.any fun (c, b) => manyElifsE c || manyElifsB b) || (els.map manyElifsB).getD false
+    | .localAssign _ ns vs => ns.any manyElifsTN || vs.any manyElifsE
+    | .repeat_ b c => manyElifsB b || manyElifsE c
+    | .while_ c b => manyElifsE c || manyElifsB b
+    | .typeDecl _ _ t => manyElifsTy t
+  partial def manyElifsB : Block → Bool
+    | .mk stmts last =>
+      stmts.any manyElifsS || (match last with | some (.ret es) => es.any manyElifsE | _ => false)
+end
+
+/-- hypotheses of the partial theorems, per rule (`true` = inside the proved region) -/
+def hypothesis (name : String) (b : Block) : Option Bool :=
+  match name with
+  | "remove_continue" => some (C07.continueInLoops b)
+  | "remove_if_expression" => some (!manyElifsB b)
+  | "remove_compound_assignment" | "remove_interpolated_string" | "remove_floor_division"
+  | "convert_luau_number" | "make_assignment_local" | "remove_types" | "remove_attribute" => some true
+  | _ => none
+
+def truthyTable? : List Sexp → Option (List String)
+  | [] => some []
+  | [.list es] => some (es.map fun e => e.toString)
+  | _ => none
+
+def handle (op : String) (args : List String) : String :=
+  match op, Sexp.parseArgs args with
+  | "rules", _ => " ".intercalate ruleNames
+  | "rule", some (name :: block :: rest) =>
+    match nameOfSexp? name, Block.ofSexp? block, truthyTable? rest with
+    | some n, some b, some table =>
+      match applyRule n (truthyOf table) b with
+      | some b' => b'.toSexp.toString
+      | none => "unknown-rule"
+    | _, _, _ => "bad-request"
+  | "all", some (block :: rest) =>
+    match Block.ofSexp? block, truthyTable? rest with
+    | some b, some table => (C07.lowerAll (truthyOf table) b).toSexp.toString
+    | _, _ => "bad-request"
+  | "census", some [.atom name, block] =>
+    match Block.ofSexp? block with
+    | some b =>
+      match census name b with
+      | some n => toString n
+      | none => "unknown-census"
+    | none => "bad-request"
+  | "wf", some [block] =>
+    match Block.ofSexp? block with
+    | some b => toString (wfB b)
+    | none => "bad-request"
+  | "fuelok", some [block] =>
+    -- the decidable fuel hypothesis of `census_zero_remove_if_expression`
+    match Block.ofSexp? block with
+    | some b => toString (decide (C07.kB { ifx := 13 } b + 1 ≤ Visitor.fuelFor b))
+    | none => "bad-request"
+  | "hyp", some [name, block] =>
+    match nameOfSexp? name, Block.ofSexp? block with
+    | some n, some b =>
+      match hypothesis n b with
+      | some h => toString h
+      | none => "unknown-rule"
+    | _, _ => "bad-request"
+  | _, _ => "unknown-op " ++ op
 
 end DarkluaModel.C06
